@@ -213,7 +213,7 @@ var c02Cur *c02Mon
 
 func c02Init(w *fw.W) {
 	lisp.VerifSetHooks(&lisp.VerifHooks{
-		TailElide: func(r *lisp.Runtime, frames []lisp.CallFrame) {
+		TailElide: func(r *lisp.Runtime, frames []lisp.CallFrame, callee lisp.CallFrame) {
 			m := c02Cur
 			if m == nil {
 				return
